@@ -509,7 +509,58 @@ def r5(repo, res):
                              f"(callers in the package always pass a value or the default stays empty)")
 
 
+NONDET_MODULES = {"random", "uuid", "secrets"}
+
+
+def r6(repo, res):
+    """No nondeterministic source feeds a result: no random/uuid/secrets import, no id()/hash() outside __hash__,
+    no reflective write (setattr / delattr / exec / eval / globals()) anywhere in the package; directory listings are sorted."""
+    n = 0
+    for mname, m in repo.modules.items():
+        for node in ast.walk(m.tree):
+            n += 1
+            bad = None
+            if isinstance(node, ast.Import):
+                for a in node.names:
+                    if a.name.split(".")[0] in NONDET_MODULES:
+                        bad = f"import {a.name}"
+            elif isinstance(node, ast.ImportFrom) and (node.module or "").split(".")[0] in NONDET_MODULES:
+                bad = f"from {node.module} import ..."
+            elif isinstance(node, ast.Call) and isinstance(node.func, ast.Name):
+                fn = node.func.id
+                encl = qual_of(node)
+                if fn in ("setattr", "delattr", "exec", "eval", "globals", "vars") and mname != "__main__":
+                    bad = f"reflective call {fn}(...)"
+                elif fn in ("id", "hash") and not encl.endswith("__hash__"):
+                    bad = f"{fn}(...) outside __hash__ (value differs between processes)"
+            elif isinstance(node, ast.Call) and isinstance(node.func, ast.Attribute) and node.func.attr in ("resource_listdir", "listdir", "glob", "iglob", "scandir"):
+                # a directory listing must be sorted before it decides an order
+                ok = False
+                st = _stmt(node)
+                par = getattr(st, "_parent", None)
+                nm = st.targets[0].id if isinstance(st, ast.Assign) and isinstance(st.targets[0], ast.Name) else None
+                for x in ast.walk(st):
+                    if isinstance(x, ast.Call) and call_name(x) == "sorted" and x.args and node in list(ast.walk(x.args[0])):
+                        ok = True
+                for fld in ("body", "orelse", "finalbody"):
+                    blk = getattr(par, fld, None)
+                    if isinstance(blk, list) and st in blk and nm:
+                        for later in blk[blk.index(st) + 1:]:
+                            for x in ast.walk(later):
+                                if isinstance(x, ast.Call) and call_name(x) == "sorted" and x.args and any(
+                                        isinstance(y, ast.Name) and y.id == nm for y in ast.walk(x.args[0])):
+                                    ok = True
+                if not ok:
+                    bad = f"unsorted directory listing {ast.unparse(node)[:60]}"
+            if bad:
+                res.ob("C14.R6", node, node, False, expected="no process-dependent source in the package", found=bad,
+                       clause="identical results ... in a fresh process with a different hash seed", key=f"{mname}:{bad[:60]}")
+    res.count("C14.R6:nodes scanned", n)
+    res.ob("C14.R6", "genotype::genotype", "scan for process-dependent sources", True, expected="completed", found=f"{n} nodes scanned", key="scan")
+
+
 def run(repo, res):
+    r6(repo, res)
     r1(repo, res)
     r2(repo, res)
     r3(repo, res)
@@ -567,6 +618,11 @@ MUTANTS = [
          old="    debug_info[\"id\"] = identifier\n", new="    debug_info[\"id\"] = identifier\n    identifier = len(debug_info)\n"),
     dict(name="R4 module-level cache written from a function (seeded C07_1 shape)", module="profile", expect="C14.R4",
          old="class Profile:\n", new="_CACHE = {}\n\n\ndef _cached(path):\n    if path not in _CACHE:\n        _CACHE[path] = path\n    return _CACHE[path]\n\n\nclass Profile:\n"),
+    dict(name="R6 tie broken by id()", module="genotype", expect="C14.R6",
+         old="        key=lambda m: (int(1000 * m.score), m._solution_nice()),\n    )\n    log.debug(\"*\" * 80)\n\n    if multiple_warn_level >= 1",
+         new="        key=lambda m: (int(1000 * m.score), id(m)),\n    )\n    log.debug(\"*\" * 80)\n\n    if multiple_warn_level >= 1"),
+    dict(name="R6 gene list in directory order", module="genotype", expect="C14.R6",
+         old="        avail_genes = sorted(avail_genes)\n    elif gene_db == \"pharmacoscan\":", new="    elif gene_db == \"pharmacoscan\":"),
     dict(name="R5 failing gene aborts the run", module="genotype", expect="C14.R5",
          old="            except AldyException as ex:\n                log.error(f\"Failed gene {a.upper()}\")",
          new="            except AldyException as ex:\n                raise\n                log.error(f\"Failed gene {a.upper()}\")"),
